@@ -546,7 +546,7 @@ def _role_array(role):
     if role == "mask2":
         return np.array(MASK2, dtype=bool)
     if role == "pos":
-        return np.array([5, 0, 3, 0], dtype=np.int64)
+        return np.array([5, 0, -3, 0, -1], dtype=np.int64)  # repeated and negative (from the end) positions
     if role == "times":
         return O.times_for(N)[0]
     if role == "matrix":
